@@ -88,6 +88,7 @@ struct SSet {
 /// a union-like enum as generated for unions holding doubles
 #[derive(Debug, Clone, Educe)]
 #[educe(PartialEq, Eq, PartialOrd, Ord, Hash)]
+#[repr(u32)]
 enum UDouble {
     A(
         #[educe(
